@@ -51,6 +51,7 @@ def is_occupied_rule(ctx: Ctx, rule: str) -> None:
         return {ast.unparse(c) for c in ast.walk(expr) if isinstance(c, ast.Call) and call_name(c) == "get_numeric" and c.args and isinstance(c.args[0], ast.Constant) and c.args[0].value == key}
 
     shape_bad, left_bad, texts = "", "", []
+    default_bad = ""
     for prem, (kind, val, _f, _e, _i) in rows:
         texts.append(f"{norm.show(prem)[:80]} -> {val}")
         e = ast.parse(val, mode="eval").body if kind == "return" and val else None
@@ -65,6 +66,14 @@ def is_occupied_rule(ctx: Ctx, rule: str) -> None:
             shape_bad = shape_bad or f"the occupation threshold changed: {val}"
             continue
         MCT = next(iter(mcts))
+        # "one worker by default; the limit defaults to max_tries when retries are enabled": with nothing configured the limit is 1, i.e.
+        # the default of the limit is the CONFIGURED max_tries falling back to the constant 1 (not a mode dependent number of tries)
+        mc = ast.parse(MCT, mode="eval").body
+        dflt = mc.args[1] if len(mc.args) > 1 else None
+        one_by_default = (isinstance(dflt, ast.Call) and call_name(dflt) == "get_numeric" and dflt.args and isinstance(dflt.args[0], ast.Constant) and dflt.args[0].value == "max_tries"
+                          and len(dflt.args) == 2 and isinstance(dflt.args[1], ast.Constant) and dflt.args[1].value == 1)
+        if not one_by_default:
+            default_bad = f"the default of max_concurrent_tries is `{ast.unparse(dflt) if dflt is not None else None}`: without any retry setting more than one worker may execute a test at once"
         mts = reads(thr, "max_tries") | {x for p_ in [prem] for a_ in norm.atoms_of(p_) for x in reads(ast.parse(a_, mode="eval").body, "max_tries")}
         MTS = sorted(mts, key=len, reverse=True)
         # tries left: min(<re-entrancy>, max_tries - <number of finished results>) unless the re-entrancy was raised above max_tries on purpose
@@ -83,6 +92,7 @@ def is_occupied_rule(ctx: Ctx, rule: str) -> None:
         shape_bad = "no path through is_occupied"
     ctx.record(rule, "PROV", fref, "is_occupied(worker) = is_started(worker, max(E, 1)), E built from max_concurrent_tries (default max_tries, default 1)",
                not shape_bad, {"rows": texts}, shape_bad)
+    ctx.record(rule + "o", "CONST", fref, "one worker by default: the limit defaults to the configured max_tries, else 1", not default_bad and not shape_bad, {}, default_bad or shape_bad)
     ctx.record(rule + "t", "GUARD", fref, "the re-entrancy is bounded by the tries not yet spent (min(re-entrancy, max_tries - finished results)) unless it was raised above max_tries",
                not left_bad and not shape_bad, {"rows": texts}, left_bad or shape_bad)
     # is_started reads the markers of the node and of every bridged copy (set of contributions, any loop shape)
